@@ -69,6 +69,7 @@ double   vf_bits2d (uint64_t b) ;
 #define V_W_OK(p, n)		__CPROVER_w_ok ((p), (n))
 #define V_R_OK(p, n)		__CPROVER_r_ok ((p), (n))
 #define V_CBMC			1
+#define V_OBJSIZE(p)		__CPROVER_OBJECT_SIZE (p)
 
 #else
 
@@ -81,6 +82,8 @@ void vf_assume_fail (const char *cond, const char *file, int line) ;
 #define V_W_OK(p, n)		1
 #define V_R_OK(p, n)		1
 #define V_CBMC			0
+#include <malloc.h>
+#define V_OBJSIZE(p)		malloc_usable_size ((void *) (p))	/* exact under ASan */
 #define __CPROVER_assert(c, msg)	VASSERT (c, msg)
 #define __CPROVER_assume(c)		VASSUME (c)
 
